@@ -1,11 +1,27 @@
 //! One workload + oracle module per property.
 use crate::fw::{Cfg, Report};
 
+pub mod c02;
 pub mod c03;
+pub mod c04;
+pub mod c05;
+pub mod c06;
+pub mod c10;
+pub mod c11;
+pub mod c12;
+pub mod c14;
 
 pub fn run(cfg: &Cfg, rep: &mut Report) -> bool {
     match cfg.prop.as_str() {
+        "C02" => c02::run(cfg, rep),
         "C03" => c03::run(cfg, rep),
+        "C04" => c04::run(cfg, rep),
+        "C05" => c05::run(cfg, rep),
+        "C06" => c06::run(cfg, rep),
+        "C10" => c10::run(cfg, rep),
+        "C11" => c11::run(cfg, rep),
+        "C12" => c12::run(cfg, rep),
+        "C14" => c14::run(cfg, rep),
         _ => return false,
     }
     true
